@@ -23,7 +23,7 @@ def run(tier):
     import C15
     cases = [c for c in C15.gen('quick' if not big else 'thorough', rng.fork('log')) if c.suite == 'log-alter']
     import gens_table
-    tcases = gens_table.gen_table_mut(rng.fork('tmut'), 500 if not big else 20000)
+    tcases = gens_table.gen_table_mut(rng.fork('tmut'), 500 if not big else 4000)
     # deterministic witness of the listed footer finding (so that its KNOWN-FINDING line appears on every run)
     def tf1_oracle(resp):
         return 'C11: a scan of the altered table finished OK but returned no entries (the original holds 3)' if resp.endswith(' . ok') else None
@@ -44,7 +44,7 @@ def run(tier):
                      'blocks, optional compression and filters, data left in the log) copied and damaged in one file -- table files at positions spread over the whole file (bit flips, byte set '
                      'to 0x00/0xFF, truncation, zero-filled 512 B sector), logs, MANIFEST, CURRENT -- then opened with paranoid checks, every key looked up with checksum verification and scanned in '
                      'both directions: with table damage every answer is the right one or an error and an OK scan is complete; with log/MANIFEST/CURRENT damage no value appears that was never written')
-    n, nops = (10, 30) if not big else (120, 200)
+    n, nops = (10, 30) if not big else (60, 100)
     wl_run.run_histories(chk, n, nops, {'corrupt', 'get'}, 'damaged-databases', family='corrupt')
     chk.assumptions += ['alterations confined to one byte of a checksummed region are detected unconditionally (crc_detects_single_byte); truncations, zeroed sectors and multi-byte '
                         'alterations are detected unless the CRC-32C of the altered block collides (probability 2^-32 per block)',
